@@ -1,4 +1,6 @@
 import Firebolt.Spec.Offsets
+import Firebolt.Generated.Source
+import Firebolt.Expected.Source
 /-!
 # C06 — Kafka source resumes within maxpartitionlag of head, files the skipped range
 
@@ -290,5 +292,13 @@ theorem spec_holds (cfg : Cfg) (ps : List PartIn) (h : inScope cfg ps = true) : 
         cases specRequest cfg pi <;> simp
       simp only [htr, hneg]
       cases cfg.recEnabled <;> simp
+
+
+/-! ### the functions this model was transcribed from are unchanged (regenerated from /repo on every run) -/
+theorem source_retryAssignPartitions : GeneratedSrc.retryAssignPartitions = ExpectedSrc.retryAssignPartitions := by rfl
+theorem source_assignPartitions : GeneratedSrc.assignPartitions = ExpectedSrc.assignPartitions := by rfl
+theorem source_calculateAssignmentOffsets : GeneratedSrc.calculateAssignmentOffsets = ExpectedSrc.calculateAssignmentOffsets := by rfl
+theorem source_offsetForPartition : GeneratedSrc.offsetForPartition = ExpectedSrc.offsetForPartition := by rfl
+theorem source_requestRecovery : GeneratedSrc.requestRecovery = ExpectedSrc.requestRecovery := by rfl
 
 end Firebolt.C06
